@@ -446,6 +446,11 @@ class Recfile(object):
 
         dataview = data.view(numpy.ndarray)
 
+        # the C++ code writes the rows in one pass starting from the data
+        # pointer, so strided or reversed views must be made contiguous
+        if not dataview.flags["C_CONTIGUOUS"]:
+            dataview = numpy.ascontiguousarray(dataview)
+
         if self.is_ascii:
             # for ascii, make sure the data are in native format.  This greatly
             # simplifies the C code
